@@ -15,6 +15,7 @@ CONSTANTS
   ConcGrid <- G_T
   YieldK <- K_None
   TerminalQueries = TRUE
+  AllowEmpty = FALSE
 
 INVARIANT WorkspaceWellFormed
 INVARIANT SplitPartitions
